@@ -153,6 +153,9 @@ structure State where
   fixed : Bool
   /-- repo_patches/reward_register_withdraw_authorization.diff applied (not a C12 defect; kept separate) -/
   codecFixed : Bool := false
+  /-- `true`: CreatePromoter refuses an address that already belongs to a promoter (fix commit "reward: one promoter
+      per address"); `false`: the tree as given, where the promoter-by-address record is silently overwritten -/
+  promoterFixed : Bool := false
   time : Nat
   bank : Bank
   promoters : List Promoter
@@ -324,6 +327,7 @@ def createPromoter (s : State) (m : PromoterMsg) : Except Err State :=
   else if !m.tv then .error .ticket
   else if (getP s.promoters m.uid).isSome then .error .dup
   else if !m.uidOk || !confValid m.conf then .error .validate
+  else if s.promoterFixed && (getA s.byAddr m.creator).isSome then .error .dup
   else .ok { s with
     promoters := setP s.promoters { uid := m.uid, creator := m.creator, addresses := [m.creator], conf := m.conf },
     byAddr := setA s.byAddr (m.creator, m.uid) }
